@@ -148,7 +148,7 @@ Section CompRun.
     exists setting,
       construct_generic vr ev w pok sok rc rp ro (S m) c false false mem [] vrefs
       = Ok (PObject (cid c) setting (defaulted_names c setting) false) /\
-      (forall k x, alookup k setting = Some x -> ent_ok c sc mem k x) /\
+      (forall k x, alookup k setting = Some x -> ent_ok vr ev c sc mem k x) /\
       (forall k v, alookup k mem = Some v -> amem k setting = true).
   Proof.
     pose proof Hev as Hev'. unfold env_complete in Hev'. apply andb_true_iff in Hev'. destruct Hev' as [Hnow Hu4].
@@ -201,7 +201,7 @@ Section CompRun.
     { destruct (alookup (u "granular_markings") setting) as [x|] eqn:E; auto. exfalso.
       pose proof (Hent _ _ E) as He. unfold ent_ok in He.
       assert (Eg : alookup (u "granular_markings") mem = None) by (apply amem_false; exact Hng).
-      rewrite Eg in He. destruct He as [s [Hf Hd]]. unfold nodefault in Hgran. rewrite Hf in Hgran.
+      rewrite Eg in He. destruct He as [s [Hf [Hd _]]]. unfold nodefault in Hgran. rewrite Hf in Hgran.
       destruct (sdef s); try discriminate. contradiction. }
     replace (match (if existsb (fun k => match k with CSkipBaseCheck => true | _ => false end) (ccons c)
                     then None else alookup (u "granular_markings") setting) with
@@ -221,7 +221,7 @@ Section CompRun.
                                ((match cfamily c with FExt => [CAtLeastOneDefault] | _ => [] end) ++ ccons c) = Ok tt).
     { apply constr_all_ok. intros k Hk.
       pose proof Hcons as Hcons'. rewrite forallb_forall in Hcons'. pose proof (Hcons' k Hk) as Hok.
-      apply (constr_complete vr pok c sc mem setting Hfam Hsub Hent Hin HT (S m) k Hok).
+      apply (constr_complete vr ev pok c sc mem setting Hfam Hsub Hent Hin HT (S m) k Hok).
       apply in_app_or in Hk. destruct Hk as [Hk | Hk].
       - apply V3. apply in_or_app. left. rewrite <- Hfam. exact Hk.
       - destruct (Hcc k Hk) as [-> | Hk']; [reflexivity|]. apply V3. apply in_or_app. right. exact Hk'. }
@@ -230,7 +230,15 @@ Section CompRun.
 End CompRun.
 
 (* ---------- the class constructor ---------- *)
-Theorem spec_complete_partial_gen :
+(* a stored property that was not given holds its default: the fixed value, the clock reading cleaned
+   for the property's precision, "<prefix><uuid4>", the constant -- or, for the id of a 2.1 observable
+   with contributing properties, the deterministic "<type>--<uuid5>" written over the default *)
+Definition default_entry (vr : variant) (ev : env) (c : cls) (k : ustring) (x : pval) : Prop :=
+  exists s, find_slot c k = Some s /\ sdef s <> DNone /\
+            (stored_default vr ev s x \/
+             (k = u "id" /\ exists t, ctype c = Some t /\ x = PJ (JStr (t ++ u "--" ++ e_uuid5 ev)))).
+
+Theorem spec_complete_partial_defaults_gen :
   forall (vr : variant) (ev : env) (w sp : world) pok sok cid mem m,
     variant_complete vr = true -> env_complete ev = true -> spec_refines sp w = true ->
     valid_obj sp pok (S m) cid (JObj mem) = true -> NoDup (map fst mem) ->
@@ -243,9 +251,8 @@ Theorem spec_complete_partial_gen :
       (* every given property is stored with the same value *)
       (forall k v, In (k, v) mem -> exists x s', alookup k inner = Some x /\ find_slot sc k = Some s' /\
                                                  jsame (skind s') v (encode true x)) /\
-      (* whatever else is stored is a defaulted property of the class *)
-      (forall k x, alookup k inner = Some x -> alookup k mem = None ->
-                   exists s, find_slot c k = Some s /\ sdef s <> DNone).
+      (* whatever else is stored is a property of the class at its default value *)
+      (forall k x, alookup k inner = Some x -> alookup k mem = None -> default_entry vr ev c k x).
 Proof.
   intros vr ev w sp pok sok cid mem m Hvr Hev Hsr Hvalid Hnd Hcc Hinp0.
   unfold class_complete in Hcc.
@@ -288,8 +295,9 @@ Proof.
     destruct He as (s & s' & _ & Hf' & _ & _ & Hs & _).
     exists x, s'. split; [|split; auto]. rewrite Hsame; auto.
     destruct (ustr_eqb k (u "id")) eqn:E; auto. right. apply ustr_eqb_eq in E. subst k. congruence. }
-  assert (Extra : forall k x, alookup k setting = Some x -> alookup k mem = None -> exists s, find_slot c k = Some s /\ sdef s <> DNone).
-  { intros k x Hx Hn. pose proof (Hent k x Hx) as He. unfold ent_ok in He. rewrite Hn in He. exact He. }
+  assert (Extra : forall k x, alookup k setting = Some x -> alookup k mem = None -> default_entry vr ev c k x).
+  { intros k x Hx Hn. pose proof (Hent k x Hx) as He. unfold ent_ok in He. rewrite Hn in He.
+    destruct He as (s & Hf & Hd & Hsd). exists s. auto. }
   (* the result, with or without the deterministic id *)
   clear Egen.
   destruct (cinit c) eqn:Ei; try discriminate K3.
@@ -310,6 +318,30 @@ Proof.
             [rewrite alookup_aset_other by exact Hk'; reflexivity
             | exfalso; apply Hk'; apply amem_false; exact Eid]).
   all: intros k x Hx Hn; destruct (ustr_eqb k (u "id")) eqn:E;
-    [apply ustr_eqb_eq in E; subst k; exists sid; split; auto; destruct (sdef sid); try discriminate K; discriminate
+    [apply ustr_eqb_eq in E; subst k; rewrite alookup_aset_same in Hx; injection Hx as <-;
+     exists sid; split; auto; split; [destruct (sdef sid); try discriminate K; discriminate | right; split; auto; exists t; auto]
     | rewrite alookup_aset_other in Hx by exact E; eapply Extra; eauto].
+Qed.
+
+(* the earlier, weaker form of the last conjunct: what else is stored is a defaulted property *)
+Theorem spec_complete_partial_gen :
+  forall (vr : variant) (ev : env) (w sp : world) pok sok cid mem m,
+    variant_complete vr = true -> env_complete ev = true -> spec_refines sp w = true ->
+    valid_obj sp pok (S m) cid (JObj mem) = true -> NoDup (map fst mem) ->
+    class_complete w sp cid = true ->
+    (forall c sc, find_class (wclasses w) cid = Some c -> find_class (wclasses sp) cid = Some sc ->
+                  input_complete c sc mem = true) ->
+    exists c sc inner dfl,
+      find_class (wclasses w) cid = Some c /\ find_class (wclasses sp) cid = Some sc /\
+      run vr ev w pok sok (S m) (RConstruct cid false false mem None) = Ok (PObject cid inner dfl false) /\
+      (forall k v, In (k, v) mem -> exists x s', alookup k inner = Some x /\ find_slot sc k = Some s' /\
+                                                 jsame (skind s') v (encode true x)) /\
+      (forall k x, alookup k inner = Some x -> alookup k mem = None ->
+                   exists s, find_slot c k = Some s /\ sdef s <> DNone).
+Proof.
+  intros vr ev w sp pok sok cid mem m Hvr Hev Hsr Hvalid Hnd Hcc Hinp0.
+  destruct (spec_complete_partial_defaults_gen vr ev w sp pok sok cid mem m Hvr Hev Hsr Hvalid Hnd Hcc Hinp0)
+    as (c & sc & inner & dfl & A & B & C & D & E).
+  exists c, sc, inner, dfl. split; auto. split; auto. split; auto. split; auto.
+  intros k x Hx Hn. destruct (E k x Hx Hn) as (s & Hf & Hd & _). eauto.
 Qed.
